@@ -13,9 +13,21 @@ def mk(kind, v, t):
         return TriaMesh(v, t) if kind == "tri" else TetMesh(v, t)
 
 
-def run_eigs(kind, v, t, lump, k, dt=np.float64):
+def run_eigs(kind, v, t, lump, k, dt=np.float64, pre=None):
+    """`pre`: what was done with the same Solver object before: None (fresh), "poisson" (a Poisson solve without Dirichlet data,
+    as diffgeo does), "poisson-d" (with Dirichlet data), "eigs" (another eigs call with a different k)"""
     with core.quiet():
         s = Solver(mk(kind, np.asarray(v, dtype=dt), t), lump=lump)
+        n = len(v)
+        try:
+            if pre == "poisson":
+                s.poisson(np.sin(np.arange(n)) - np.mean(np.sin(np.arange(n))))
+            elif pre == "poisson-d":
+                s.poisson(1.0, (np.array([0]), np.array([0.5])))
+            elif pre == "eigs":
+                s.eigs(max(1, min(n - 1, k + 1 if k + 1 < n else k - 1)))
+        except RuntimeError:
+            pass           # singular factor (finding F15 of C08): the object is still usable
         with capture.capture() as calls:
             ev, evec = s.eigs(k)
     return s, calls, np.asarray(ev, dtype=float), np.asarray(evec, dtype=float)
@@ -44,7 +56,9 @@ def monitor(s, ev, evec, kind, v, t, k):
             return ("smallest", "returned values differ from the k smallest of the dense reference: %s vs %s" % (ev[:5], w[:5]))
     comp = components(n, t)
     ncomp = len(set(comp))
-    nz = int(np.sum(np.abs(ev) < 1e-7 * max(1.0, abs(ev).max())))
+    # "numerically zero" is judged against the first eigenvalue that must be positive (index = number of components), not against
+    # the largest returned one (graded meshes have spectra spanning ten orders of magnitude)
+    nz = int(np.sum(np.abs(ev) < 1e-7 * max(1.0, abs(ev[min(k - 1, ncomp)]))))
     if nz != min(ncomp, k):
         return ("zero-eigenvalues", "%d numerically zero eigenvalues, %d components (k=%d)" % (nz, ncomp, k))
     for j in range(nz):
@@ -83,7 +97,7 @@ class Check(BaseCheck):
                 for k in ks:
                     if 1 <= k < n:
                         yield dict(kind=kind, v=c["v"], t=c["t"], k=int(k), lump=bool(rng.random() < 0.5), name=c["name"],
-                                   dt="f32" if rng.random() < 0.2 else "f64")
+                                   dt="f32" if rng.random() < 0.2 else "f64", pre=[None, None, "poisson", "poisson-d", "eigs"][int(rng.integers(0, 5))])
 
     def correspond(self, drv, stats):
         fails = []
@@ -93,10 +107,10 @@ class Check(BaseCheck):
         for case in self.problems(self.seed, n_tri, n_tet):
             v, t, k = case["v"], case["t"], case["k"]
             dt = np.float32 if case["dt"] == "f32" else np.float64
-            stats.case(core.mesh_key(v, t, k, case["lump"], case["dt"]), cls=[case["kind"] + ":" + case["name"], "lump:%s" % case["lump"], "dtype:" + case["dt"]],
+            stats.case(core.mesh_key(v, t, k, case["lump"], case["dt"]), cls=[case["kind"] + ":" + case["name"], "lump:%s" % case["lump"], "dtype:" + case["dt"], "solver-used-before:%s" % case.get("pre")],
                        sample=dict(kind=case["kind"], name=case["name"], n=len(v), k=k, lump=case["lump"]))
             try:
-                s, calls, ev, evec = run_eigs(case["kind"], v, t, case["lump"], k, dt)
+                s, calls, ev, evec = run_eigs(case["kind"], v, t, case["lump"], k, dt, case.get("pre"))
             except Exception as e:  # noqa: BLE001
                 fails.append(core.Failure("correspondence", "eigs vs model", "impl raised %s: %s" % (type(e).__name__, e), case)); continue
             if len(calls.splu) != 1 or len(calls.eigsh) != 1:
@@ -127,7 +141,7 @@ class Check(BaseCheck):
     def oracle(self, case):
         v = np.asarray(case["v"], float); t = np.asarray(case["t"], dtype=np.int64); k = int(case["k"])
         try:
-            s, calls, ev, evec = run_eigs(case["kind"], v, t, bool(case["lump"]), k)
+            s, calls, ev, evec = run_eigs(case["kind"], v, t, bool(case["lump"]), k, pre=case.get("pre"))
         except Exception as e:  # noqa: BLE001
             return core.Violation("runs", "eigs raised %s: %s" % (type(e).__name__, e), case)
         mon = monitor(s, ev, evec, case["kind"], v, t, k)
